@@ -30,12 +30,9 @@ def _injective_in(key, var):
     return None
 def r_C08bc(root):
     t = load(root, M); out = []; inst = 0
-    fn = find(t, "ReferenceResolver.resolve_one_step"); fi = sem.info(fn)
-    loop = next((n for n in fn.body if isinstance(n, ast.For) and "current_crossrefs" in ast.unparse(n.iter)), None)
-    if loop is None: raise AnalysisError("resolver loop not found")
-    tgt = [x.id for x in ast.walk(loop.target) if isinstance(x, ast.Name)]
-    if len(tgt) != 3: raise AnalysisError("resolver loop does not unpack (obj, attr, crossref)")
-    v_obj, v_attr, v_ref = tgt
+    from sa.rules import resolver as RS
+    R = RS.roles(root); fn, loop = R.fn, R.loop; fi = sem.info(fn)
+    v_obj, v_attr, v_ref = R.v_obj, R.v_attr, R.v_ref
     stores = [c for c in calls(loop) if isinstance(c.func, ast.Attribute) and c.func.attr == "insert" and isinstance(c.func.value, ast.Name)]
     lst_stores = []
     for c in stores:
@@ -105,7 +102,7 @@ def r_C08bc(root):
         # append-style stores are handled (and reported) by C08.a; nothing to check here
         pass
     # ---- C08.c element positions of queued references
-    pn = find(t, "parse_tree_to_objgraph.process_node")
+    pn = find_i(root, M, "parse_tree_to_objgraph.process_node")
     ctor = [c for c in calls(pn, own=True) if callee_name(c) == "ObjCrossRef"]
     if len(ctor) < 2: raise AnalysisError("expected the scalar and the list construction of ObjCrossRef in process_node, found %d" % len(ctor))
     fip = sem.info(pn)
